@@ -140,6 +140,31 @@ def outerOK (lc : List (Rat × Rat)) (ev : List (Nat × Nat)) (i : Nat) : Bool :
 def subQ (coeffs : List (List (List Rat))) (lc : List (Rat × Rat)) (ev : List (Nat × Nat)) (i s k : Nat) : Rat :=
   tab coeffs i s k * ratio lc ev s k / subDet s
 
+
+/-! ## what the code computes with lengths (generic scalar type, `cast : Rat → K`) -/
+section lengths
+variable {K : Type}
+
+/-- entry `(3 s + k, i)` of the 18 x 3 block that `generate_rwg0_map` writes for one element:
+`coeffs[i][s][k] * outer_edges[i] / dof_mult[s][k]`; `L d` is length number `d` of `lenDefs` -/
+def mapEntry [Mul K] [Div K] (cast : Rat → K) (coeffs : List (List (List Rat))) (L : Nat → K) (i s k : Nat) : K :=
+  cast (tab coeffs i s k) * L (outerEdges.getD i 99) / L (dm s k)
+
+/-- length of local edge `k` of sub-triangle `s`, expressed by the parallel segment that `dof_mult[s][k]` measures -/
+def fineLen [Mul K] (cast : Rat → K) (lc : List (Rat × Rat)) (ev : List (Nat × Nat)) (L : Nat → K) (s k : Nat) : K :=
+  cast (ratio lc ev s k) * L (dm s k)
+
+/-- `_numba_rwg0_evaluate`: `mult * edge_length / integration_element * J.dot(reference value)` on an element with
+Jacobian columns `ja jb` -/
+def rwgEval [Add K] [Sub K] [Mul K] [Div K] [One K] (ja jb : V3 K) (A l m : K) (i : Nat) (p : K × K) : V3 K :=
+  smul3 (m * l / A) (applyJ ja jb (rwgG i p))
+
+/-- `_numba_snc0_evaluate`: `normal × (RWG value)` -/
+def sncEval [Add K] [Sub K] [Mul K] [Div K] [One K] (n ja jb : V3 K) (A l m : K) (i : Nat) (p : K × K) : V3 K :=
+  cross n (rwgEval ja jb A l m i p)
+
+end lengths
+
 /-! ## dual spaces -/
 
 /-- sub-triangle and local vertex addressed by local dof `n` of the 18 dofs of an element -/
